@@ -14,7 +14,7 @@ def run(ctx):
     n = 100 if ctx.tier == "quick" else 6000
     nc = 40 if ctx.tier == "quick" else 400     # conducted replay: behaviours per model instance
     fams = [("conduct", "conduct.idem", nc), ("conduct", "conduct.idem1", nc),
-            ("gen", "gen.idem", n), ("gen", "gen.idem1", n), lambda: pc.family_faults(True, ctx.seed), lambda: pc.family_gates(True), pc.family_idem_clean, lambda: pc.family_resubmit(True), lambda: pc.family_overflow(True), lambda: pc.family_error_codes(True),
+            ("gen", "gen.idem", n), ("gen", "gen.idem1", n), lambda: pc.family_faults(True, ctx.seed), lambda: pc.family_gates(True), pc.family_idem_clean, lambda: pc.family_resubmit(True), lambda: pc.family_overflow(True), lambda: pc.family_codeapp(True), lambda: pc.family_error_codes(True),
             pc.family_idem_extra]
     mc = ["MCProducer.idem.cfg"] if ctx.tier == "quick" else ["MCProducer.idem.cfg", "MCProducer.liveidem.cfg"]
     # numbering per (topic, partition) on the real transaction manager (names that run into each other when concatenated)
